@@ -1,0 +1,34 @@
+//go:build verif
+
+package datamatrix
+
+import "github.com/boombuler/barcode"
+
+// Hooks for the verification harness in /verif (build tag `verif` only): they expose internal stages unchanged.
+
+func VerifEncodeText(content string) []byte { return encodeText(content) }
+
+func VerifAddPadding(data []byte, toCount int) []byte { return addPadding(data, toCount) }
+
+// VerifCalcECC appends the check codewords of the size with index sizeIdx in codeSizes.
+func VerifCalcECC(data []byte, sizeIdx int) []byte {
+	if sizeIdx < 0 || sizeIdx >= len(codeSizes) {
+		return nil
+	}
+	return ec.calcECC(data, codeSizes[sizeIdx])
+}
+
+// VerifPlace runs SetValues on a fresh layout of the size with index sizeIdx and returns the mapping matrix row-major.
+func VerifPlace(data []byte, sizeIdx int) []bool {
+	if sizeIdx < 0 || sizeIdx >= len(codeSizes) {
+		return nil
+	}
+	size := codeSizes[sizeIdx]
+	l := newCodeLayout(size, barcode.ColorScheme16)
+	l.SetValues(data)
+	out := make([]bool, size.MatrixColumns()*size.MatrixRows())
+	for i := range out {
+		out[i] = l.matrix.GetBit(i)
+	}
+	return out
+}
